@@ -211,6 +211,9 @@ def operator_sweep(mode: str, version: int, thorough: bool = False) -> List[Tupl
         e = E()
         add("op:Replace:c", e.observe_b(("Tern", "Replace", e.tagged(e.b()), ("Int", 1), e.tagged(e.b()))),
             {"lens": (0, 1, 3)})
+        for c in (0, 255, 256):        # the constant start selects replace2 (one-byte immediate) or replace3
+            e = E()
+            add("op:Replace:c%d" % c, e.observe_b(("Tern", "Replace", e.b(), ("Int", c), ("Bytes", b"xy"))), {"lens": (3, 258)})
     for name, mv in HASHES:
         if version >= mv:
             e = E()
@@ -446,7 +449,22 @@ def env_family(mode: str, version: int):
                     {"lens": (0, 1)}))
         out.append(("env:gtxn", prog(mode, ("Return", ("Bin", "Add", ("Gtxn", 1, "Amount"), ("Gtxn", 0, "Fee")))),
                     {"group_index_options": (0, 1)}))
-        return out
+        # indices computed at run time (txnas / args / gtxns / gtxnsas forms); the index expression is kept small so that
+    # only a few of the 256 / 16 alternatives are feasible
+    ix = ("Bin", "Mod", e.u(3), ("Int", 3))
+    if mode == "A" and version >= 5:
+        out.append(("env:rt-index:apparg", prog(mode, ("Seq", e.tag(1), ("Return", ("Un", "Len", ("AppArgRt", ix))))), {"lens": (0, 1, 2)}))
+        out.append(("env:rt-index:apparg-order", prog(mode, ("Return", ("Un", "Len", ("Nary", "Concat", ("AppArgRt", e.tagged(ix, 2)), ("AppArgRt", e.tagged(("Int", 1), 3)))))),
+                    {"lens": (0, 1, 2)}))
+    if mode == "S" and version >= 5:
+        out.append(("env:rt-index:lsigarg", prog(mode, ("Return", ("Un", "Len", ("LsigArgRt", ix)))), {"lens": (0, 1, 2)}))
+    if version >= 3:
+        out.append(("env:rt-index:gtxn", prog(mode, ("Return", ("Bin", "Add", ("GtxnRt", ix, "Amount"), ("GtxnRt", ("Int", 0), "Fee")))), {}))
+        out.append(("env:rt-index:gtxn-const-vs-rt", prog(mode, ("Return", ("Bin", "Eq", ("GtxnRt", ("Bin", "Mod", e.u(3), ("Int", 2)), "Amount"), ("Gtxn", 1, "Amount")))), {}))
+    if mode == "A" and version >= 5:
+        out.append(("env:rt-index:gtxn-arg", prog(mode, ("Return", ("Un", "Len", ("GtxnArgRt", ("Bin", "Mod", e.u(3), ("Int", 2)), ("Bin", "Mod", e.u(4), ("Int", 2)))))), {"lens": (0, 1)}))
+        out.append(("env:rt-index:gtxn-arg-const-group", prog(mode, ("Return", ("Un", "Len", ("GtxnArgRt", 0, ("Bin", "Mod", e.u(4), ("Int", 2)))))), {"lens": (0, 1)}))
+    return out
     K1, K2 = ("Bytes", b"k1"), ("Bytes", b"k2")
     out.append(("env:gput-gget", prog(mode, ("Seq", ("GPut", K1, e.u(0)), e.tag(1), ("GPut", K2, e.b(0)),
                                              ("Return", ("Bin", "Eq", ("GGet", K1), e.u(1))))), {"lens": (0, 2)}))
